@@ -62,6 +62,7 @@ ENGINES = {
         ("inst.cpp", {"VF_KEY": "int64_t", "VF_KEYID": "i64", "VF_SET": "3"}),
         ("inst.cpp", {"VF_KEY": "uint16_t", "VF_KEYID": "u16", "VF_SET": "4"}),
         ("e_dynamic.cpp", {})]},
+    "e_cif": {"dir": "e_cif", "units": [("e_cif.cpp", {}), ("$REPO/c-interface/cpgm.cpp", {})]},
     "e_variants": {"dir": "e_variants", "units": [
         ("inst.cpp", {"VF_KEY": "uint8_t", "VF_KEYID": "u8", "VF_KEYBITS": "8"}),
         ("inst.cpp", {"VF_KEY": "uint16_t", "VF_KEYID": "u16", "VF_KEYBITS": "16"}),
@@ -99,6 +100,8 @@ CHECKS = {
             "quick": {"shards": 8, "cases": 1200}, "thorough": {"shards": 16, "cases": 30000}},
     "C15": {"engine": "e_dynamic",
             "quick": {"shards": 8, "cases": 1000}, "thorough": {"shards": 16, "cases": 20000}},
+    "C18": {"engine": "e_cif",
+            "quick": {"shards": 8, "cases": 2500}, "thorough": {"shards": 16, "cases": 60000}},
     "C07": {"engine": "e_static",
             "quick": {"shards": 8, "cases": 4000}, "thorough": {"shards": 16, "cases": 120000}},
 }
@@ -178,6 +181,10 @@ DESCR = {
                      "befriended accessor and checked against the LSM invariants; per-level indexes are compared byte-for-byte with a freshly built one",
             "design_ref": "DESIGN.md section 6 C15", "note": _DYN_NOTE + "; relies on the PGM_INDEX_VERIF friend declaration in DynamicPGMIndex",
             "technique": "stateful property-based testing with an invariant over every reachable state"},
+    "C18": {"level": "generated-input search through the extern \"C\" functions only (cpgm.cpp of the tree under test is compiled into the harness): static indexes with "
+                     "run-time epsilon judged by the C01/C02 oracle, NULL for reserved data; dynamic call histories judged against std::map incl. the iterator protocol",
+            "design_ref": "DESIGN.md section 6 C18", "note": "trusted: std::lower_bound / std::map; dynamic_pgm_index_uint64 is declared in cpgm.h but not defined by cpgm.cpp and is not exercised",
+            "technique": "property-based testing (static) and model-based stateful testing (dynamic) through the C ABI"},
     "C07": {"level": "generated-input search with the routing hook: per level the chosen segment must be the responsible one, within EpsRec+1 of the prediction, "
                      "found inside the 2*EpsRec+3 window; level sizes obey floor(m/(2*EpsRec+1))+c",
             "design_ref": "DESIGN.md section 6 C07", "note": _STATIC_NOTE + "; relies on the PGM_INDEX_VERIF route_event hook",
